@@ -2,6 +2,7 @@ import TextxVerif.Wire
 import TextxVerif.Resolve
 import TextxVerif.ResolveQuery
 import TextxVerif.ResolveOrder
+import TextxVerif.ResolveHist
 import TextxVerif.RefList
 /-! Driver for the resolver loop model (C08, C09).
 ops:
@@ -18,6 +19,10 @@ ops:
         "order_ok": `validOrder` of the loop's own sequence (literal "resolves given the ones before it");
   and accept the optional fields
         "obs_seq":[id…]  a resolution sequence observed on the implementation → "obs_order_ok": `validOrder` of it
+  {"op":"hist","global":bool,"loads":[{"keys":[file key…],"req":REQUEST (`resolve` | `resolveq`)}…]}   (C09)
+        a history of loads with one meta-model; "keys" = the files the request of the load contains
+        → {"outs":[answer per load…],"cached":[[file key…]…]}   "cached" = the files finished by earlier successful
+          loads when the load starts (`specH`: a failed load leaves nothing, a successful one its files — global only)
         "files":[[id…]…] (`resolve` only) the references file by file → the loop is run as `loopFiles` (every file
                  its own pending list, stepped in turn); "pending_files" = what stays pending per file
 -/
@@ -155,4 +160,28 @@ def handle (j : Json) : Json :=
     | none => badOp
   | _ => badOp
 
-def main : IO Unit := serve handle
+/-- the loads of a history one after the other, threading the keys of the finished files as `specH` does -/
+def runHist (glob : Bool) : List Json → List Nat → Option (List (Json × List Nat))
+  | [], _ => some []
+  | ld :: rest, cached => do
+      let keys ← getNatList? ld "keys"
+      let req ← getObj? ld "req"
+      let out := handle req
+      let pend ← getArr? out "pending"
+      let fresh := (freshFiles cached (keys.map fun k => (k, ([] : List Nat)))).map (·.1)
+      let cached' := if glob then (if pend.isEmpty then cached ++ fresh else cached) else []
+      let tail ← runHist glob rest cached'
+      pure ((out, cached) :: tail)
+
+def handleAll (j : Json) : Json :=
+  match getStr? j "op" with
+  | some "hist" =>
+    match getBool? j "global", getArr? j "loads" with
+    | some glob, some loads =>
+      match runHist glob loads.toList [] with
+      | some rs => Json.mkObj [("outs", Json.arr (rs.map (·.1)).toArray), ("cached", toJson (rs.map (·.2)))]
+      | none => badOp
+    | _, _ => badOp
+  | _ => handle j
+
+def main : IO Unit := serve handleAll
